@@ -47,6 +47,24 @@ extern int carquet_zstd_decompress(
     const uint8_t* src, size_t src_size,
     uint8_t* dst, size_t dst_capacity, size_t* dst_size);
 
+#ifdef CARQUET_VERIF
+/* Verification hook (add-only, compiled only with -DCARQUET_VERIF): scheduling call-outs of
+ * the fread page path. NULL by default. point = base + k, base 0 for the dictionary page
+ * loader and 8 for the data page loader; k: 0 before the header seek, 1 between header seek
+ * and header read, 2 after the header read, 3 before the body seek, 4 between body seek and
+ * body read, 5 after the body read, 6 the page (dictionary) became loaded. */
+void (*carquet_verif_sched)(int column_index, int point) = NULL;
+static _Thread_local int carquet_verif_col = -1, carquet_verif_point = 0;
+#define CARQUET_VERIF_SCHED(col, point) \
+    do { if (carquet_verif_sched) carquet_verif_sched((col), (point)); } while (0)
+/* announce which column / which read (header: base + 0, body: base + 3) the next file_read_at is */
+#define CARQUET_VERIF_READ(reader, point) \
+    do { carquet_verif_col = (reader)->column_index; carquet_verif_point = (point); } while (0)
+#else
+#define CARQUET_VERIF_SCHED(col, point)
+#define CARQUET_VERIF_READ(reader, point)
+#endif
+
 /* ============================================================================
  * Retained page buffers (BYTE_ARRAY values point into them)
  * ============================================================================
@@ -774,14 +792,17 @@ static carquet_status_t load_dictionary_page_mmap(
  */
 static size_t file_read_at(FILE* file, int64_t offset, void* buf, size_t size) {
     size_t got = (size_t)-1;
+    CARQUET_VERIF_SCHED(carquet_verif_col, carquet_verif_point);
 #ifdef _OPENMP
     #pragma omp critical(carquet_file_io)
 #endif
     {
         if (fseek(file, (long)offset, SEEK_SET) == 0) {
+            CARQUET_VERIF_SCHED(carquet_verif_col, carquet_verif_point + 1);
             got = fread(buf, 1, size, file);
         }
     }
+    CARQUET_VERIF_SCHED(carquet_verif_col, carquet_verif_point + 2);
     return got;
 }
 
@@ -801,6 +822,7 @@ static carquet_status_t load_dictionary_page_fread(
 
     /* Seek to dictionary page and read page header */
     uint8_t header_buf[256];
+    CARQUET_VERIF_READ(reader, 0);
     size_t header_read = file_read_at(file, dict_offset, header_buf, sizeof(header_buf));
     if (header_read == (size_t)-1) {
         CARQUET_SET_ERROR(error, CARQUET_ERROR_FILE_SEEK, "Failed to seek to dictionary");
@@ -836,6 +858,7 @@ static carquet_status_t load_dictionary_page_fread(
         return CARQUET_ERROR_OUT_OF_MEMORY;
     }
 
+    CARQUET_VERIF_READ(reader, 3);
     size_t data_read = file_read_at(file, dict_offset + (int64_t)header_size,
                                     compressed, (size_t)page_header.compressed_page_size);
     if (data_read == (size_t)-1) {
@@ -902,6 +925,7 @@ static carquet_status_t load_dictionary_page_fread(
         reader->data_start_offset = dict_offset +
                                     (int64_t)header_size +
                                     page_header.compressed_page_size;
+        CARQUET_VERIF_SCHED(reader->column_index, 6);
     }
 
     if (page_data != compressed) {
@@ -1174,6 +1198,7 @@ static carquet_status_t load_next_page_fread(
     /* Seek to data page and read page header */
     int64_t data_offset = reader->data_start_offset;
     uint8_t header_buf[256];
+    CARQUET_VERIF_READ(reader, 8);
     size_t header_read = file_read_at(file, data_offset + reader->current_page,
                                       header_buf, sizeof(header_buf));
     if (header_read == (size_t)-1) {
@@ -1222,6 +1247,7 @@ static carquet_status_t load_next_page_fread(
         return CARQUET_ERROR_OUT_OF_MEMORY;
     }
 
+    CARQUET_VERIF_READ(reader, 11);
     size_t data_read = file_read_at(file, data_offset + reader->current_page + (int64_t)header_size,
                                     compressed, (size_t)page_header.compressed_page_size);
     if (data_read == (size_t)-1) {
@@ -1355,6 +1381,7 @@ static carquet_status_t load_next_page_fread(
     reader->page_nonnull_read = 0;
     reader->page_header_size = (int32_t)header_size;
     reader->page_compressed_size = page_header.compressed_page_size;
+    CARQUET_VERIF_SCHED(reader->column_index, 14);
 
     return CARQUET_OK;
 }
